@@ -284,6 +284,8 @@ def verify(contract, tier, check, budget=None, prefix=None):
                 p = p.lstrip("*")
                 values[p] = shape.types[p].fresh(p, st)
             st.env.update(values)
+            if getattr(contract, "setup", None) is not None:
+                contract.setup(st, values)          # e.g. the symbolic ghost OS state
             st0 = st.clone()
             a = NS({k: specval(v, st, None) for k, v in values.items()})
             a.__dict__["_raw"] = values
@@ -307,6 +309,24 @@ def verify(contract, tier, check, budget=None, prefix=None):
             ex = Executor(fn, module, contract, REGISTRY)
             ex.entry_ns = a
             outs = ex.run(st)
+            for qual2 in getattr(contract, "then", ()) or ():
+                # protocol run: the next real method is executed on every state the previous one returned from
+                fn2, _ = find_function(module, qual2)
+                nxt = []
+                for s_, oc_ in outs:
+                    if oc_[0] != "return":
+                        nxt.append((s_, oc_))
+                        continue
+                    ex2 = Executor(fn2, module, contract, REGISTRY)
+                    ex2.entry_ns = a
+                    ex2.obligations = ex.obligations
+                    ex2.counters = ex.counters
+                    params2 = [p.arg for p in fn2.args.args]
+                    s_.env = {"self": values["self"]}
+                    for p in params2[1:]:
+                        s_.env[p] = None
+                    nxt += ex2.run(s_)
+                outs = nxt
         except Unsupported as u:
             check.add_obligation(Obligation(f"{prop}.{contract.qualname}[{shape.name}].unsupported", contract.key,
                                             "unsupported", "-", "undecided", 0.0, f"outside the verified subset: {u}"))
@@ -322,6 +342,8 @@ def verify(contract, tier, check, budget=None, prefix=None):
             if oc[0] == "return":
                 n_return += 1
                 for exc, cond in contract.raises.items():
+                    if cond == "may":
+                        continue
                     c = cond(a)
                     if c is False:
                         continue
@@ -329,6 +351,8 @@ def verify(contract, tier, check, budget=None, prefix=None):
                 if contract.ensures is not None:
                     try:
                         a.__dict__["final"] = NS({k: specval(v, s, ex) for k, v in values.items()})
+                        a.__dict__["final_state"] = s
+                        a.__dict__["outcome"] = oc
                         post = contract.ensures(a, specval(oc[1], s, ex))
                     except Unsupported as u:
                         ex.oblige(s, "post.unsupported", z3.BoolVal(False), label=str(u))
@@ -349,7 +373,20 @@ def verify(contract, tier, check, budget=None, prefix=None):
                             goal = f
                         ex.oblige(s, "post", goal, label=label)
             elif oc[0] == "raise":
-                if oc[1] in contract.raises:
+                if contract.raises.get(oc[1]) == "may":
+                    # an exception the environment may cause at any time: the postcondition must hold on this exit as well
+                    if contract.ensures is not None:
+                        a.__dict__["final"] = NS({k: specval(v, s, ex) for k, v in values.items()})
+                        a.__dict__["final_state"] = s
+                        a.__dict__["outcome"] = oc
+                        post = contract.ensures(a, None)
+                        s.fact(S.drain())
+                        for i, f in enumerate(post if isinstance(post, (list, tuple)) else [post]):
+                            label = f"{i}"
+                            if isinstance(f, tuple):
+                                label, f = f
+                            ex.oblige(s, "post@raise", f, label=f"{label} on {oc[1]}")
+                elif oc[1] in contract.raises:
                     ex.oblige(s, f"raises.{oc[1]}", contract.raises[oc[1]](a), label="exception only when the contract says so")
                 else:
                     ex.oblige(s, "safe.no_raise", z3.BoolVal(False), label=f"unlisted {oc[1]} " + "/".join(s.trace[-3:]))
